@@ -104,6 +104,8 @@ func main() {
 		os.Exit(cmdDump(os.Args[2:]))
 	case "selftest":
 		os.Exit(cmdSelftest(os.Args[2:]))
+	case "trypatch":
+		os.Exit(cmdTryPatch(os.Args[2:]))
 	case "list":
 		var ids []string
 		for id := range properties {
